@@ -58,3 +58,7 @@ check("C19", "exploration", "exhaustive identifier enumeration + keyword/real-wo
       "Every legal proto identifier up to length 5 (quick) / 6 (thorough) over {a,b,A,B,1,_}, all Python keywords / soft keywords / builtins and a real-world name corpus are mapped through the four pythonize_* functions (valid identifier, not a keyword, idempotent) and through a real message class: the camelCase key, the snake_case key and the proto name must all be mapped back to the field by from_dict / from_json.",
       "Exhaustive on the enumerated identifier space (legality sampled against protoc in quick, complete in thorough); classes are built with the public field API.",
       "DESIGN.md 3/C19")
+check("C12", "exploration", "exhaustive DFS over ready-queue schedules on a controlled asyncio loop + Hypothesis schedules vs history invariants at quiescence",
+      "A controlled event loop (one ready callback per step, chosen by the harness; virtual clock) runs sender / receiver / closer / canceller tasks against the real AsyncChannel. Every schedule of each small configuration is enumerated depth-first; larger configurations get Hypothesis-generated choice sequences. At quiescence the delivery history is checked: exactly-once for items sent before close, no duplicates or inventions, per-sender order, no stranded receiver, send-after-close refused, future receive terminates, cancellation / timeout surface as themselves.",
+      "Exhaustive only for the listed small configurations (evidence names each subtree and whether it completed within the budget); schedule granularity = asyncio callbacks of CPython 3.12.",
+      "DESIGN.md 3/C12")
